@@ -276,7 +276,11 @@ def machine_rule(ctx, tier):
 
 def run(ctx, tier):
     declare(ctx)
-    machine_rule(ctx, tier)
+    try:
+        machine_rule(ctx, tier)
+    except AnalysisError as ex:
+        # the other rules still run: a violation found there is reported, the unfinished machine fails the run only otherwise
+        ctx.deferred_errors.append(str(ex))
     I = make_interp(ctx.model, unroll=3 if tier == 'thorough' else 2)     # two / three matching entries per @-command
     at_rules(ctx, I)
     consts_rule(ctx)
@@ -288,6 +292,8 @@ def run(ctx, tier):
     ctx.rule('C03.R4', 'C03: every word of the exit commands is the logical value of the tracked native position', floor=6)
     rules_c03.exit_rules(ctx, make_interp(ctx.model), {('fld', _S, 'excluding'): [True]}, 'exitExcludedRegion (disable @-command)')
     run_path_rules(ctx, __name__, 'path_rules', ['G0', 'G1', 'G2', 'G3'], unroll=1)
+    from .rules_c20 import line_premise
+    line_premise(ctx)
     from .rules_c19 import tokeniser_premise
     tokeniser_premise(ctx)
     from .rules_c08 import frame_premise, state_code_premise
